@@ -1,7 +1,7 @@
 (* SnapRead/ProofsTop.v — the proofs of the theorems restated in Props.v. *)
 From Verif Require Import Base.Lex SnapRead.Model SnapRead.ModelRead SnapRead.ProofsOrd SnapRead.ProofsList
   SnapRead.ProofsScanF SnapRead.ProofsScanR SnapRead.ProofsScanLoop SnapRead.ProofsScanLoopR
-  SnapRead.ProofsCache SnapRead.ProofsRead SnapRead.ProofsTerm SnapRead.ProofsMove.
+  SnapRead.ProofsCache SnapRead.ProofsRead SnapRead.ProofsTerm SnapRead.ProofsMove SnapRead.ProofsBuffer.
 
 (* For every truth (ascending keys), every snapshot ts, all bounds (empty = unbounded; even lo > hi),
    every batch size (0 and 1 are replaced by the default, sizes above 2^32-1 are capped, as in newScanner), key-only or not, EVERY
@@ -114,6 +114,36 @@ Proof.
     exists o, w', rs'. split; [exact Hg|]. exact (Pg fuel k o w' rs' Hg).
   - intros fuel ev L0 keys E He Hf. destruct (Tb fuel ev L0 keys E He Hf) as (res & w' & rs' & Hb).
     exists res, w', rs'. split; [exact Hb|]. exact (Pb fuel ev L0 keys res w' rs' Hb).
+Qed.
+
+(* The tiers of BatchGetWithTier.  Buffer tier of a pipelined transaction [own]: the call returns
+   (total, within E*(|keys|+1)+|keys|+1 rounds for a schedule with at most E region errors) exactly the
+   pairs (k, flushed value) — the empty value for a flushed delete — of the requested keys on which
+   [own] holds a lock, for every region-error / re-split schedule; it does not depend on the committed
+   data of the key (the snapshot tier is never consulted for a flushed key); and the snapshot tier of
+   the same reader (own start ts in the ignored set, SetPipelined) never blocks on an own lock: it
+   reads the committed data below it.  Together with C05_reads_total: every tier returns and returns
+   its truth. *)
+Lemma C05_tiers_agree_proof :
+  forall (w : world) (own : N),
+    (forall fuel ev L0 keys E, bounded_errs ev 0 E ->
+        (E * (length keys + 1) + length keys < fuel)%nat ->
+        exists res, buffer_batch_get fuel ev L0 w own keys = Some res /\
+                    forall k v, In (k, v) res <-> In k keys /\ buf_val own (k_get (w_keys w) k) = Some v) /\
+    (forall ws ws' ol, buf_val own (mkKs ws ol) = buf_val own (mkKs ws' ol)) /\
+    (forall ts rs s l, ks_lock s = Some l -> l_start l = own ->
+        store_get s ts (own :: rs) = SVal (vis (ks_ws s) ts)).
+Proof.
+  intros w own. split; [|split].
+  - intros fuel ev L0 keys E He Hf. unfold buffer_batch_get.
+    destruct (group_keys_props L0 keys) as [G1 G2].
+    destruct (bbuf_terminates (length keys) own w fuel ev 0%nat (group_keys L0 keys) [] E He G1) as [res Hres].
+    + rewrite G2. lia.
+    + pose proof (concat_nonempty_len _ G1) as H2. rewrite G2 in H2. nia.
+    + exists res. split; [exact Hres|]. intros k v.
+      rewrite (bbuf_correct (fun _ => []) own w _ _ _ _ _ _ Hres k v). rewrite (group_keys_mem (fun _ => [])). cbn [In]. tauto.
+  - intros ws ws' ol. reflexivity.
+  - intros ts rs s l. apply own_lock_skipped.
 Qed.
 
 (* resolveLocks' decision: Ignore only if rolled back, committed above the caller's ts, or min
